@@ -365,6 +365,28 @@ theorem wrong_identity_rejected (P : Prims) (hP : HmacLen P) (c : Client) (resp 
     rw [← auth_eq, ← auth_eq, ← hauth, ← ha]
     rfl
 
+/-- a **single-bit** difference of the configured public key (any bit, the unused bit 255 included)
+    or node ID is a different identity in the sense of `wrong_identity_rejected`: the MAC key and
+    the ntor transcript use the configured bytes as they are -/
+theorem wrong_identity_one_bit (P : Prims) (hP : HmacLen P) (c : Client) (resp : Bytes)
+    (B id X Y exps : Bytes) (i : Nat) (mask : UInt8) (hm : mask ≠ 0)
+    (hcfg : (c.idPub = flip B i mask ∧ i < B.length ∧ c.nodeID = id) ∨
+            (c.idPub = B ∧ c.nodeID = flip id i mask ∧ i < id.length))
+    (hauth : (cacheOf P c resp).auth = (Ntor.ntorCommon P.toPrims exps id B X Y).2) :
+    (∃ e, (parseServerHandshake P c resp).2 = .err e) ∨
+    ∃ a a', a ≠ a' ∧ P.hmac (Ntor.bs tMac) a = P.hmac (Ntor.bs tMac) a' ∧
+      a = authInput P (P.x25519 c.xPriv (serverPub P c resp) ++ P.x25519 c.xPriv c.idPub)
+            c.nodeID c.idPub c.xPub (serverPub P c resp) ∧
+      a' = authInput P exps id B X Y := by
+  rcases hcfg with ⟨h1, h2, h3⟩ | ⟨h1, h2, h3⟩
+  · exact wrong_identity_rejected P hP c resp B id X Y exps (by rw [h1, flip_length]) (by rw [h3])
+      (fun h => flip_ne B i mask h2 hm (by rw [← h1]; exact h.1)) hauth
+  · exact wrong_identity_rejected P hP c resp B id X Y exps (by rw [h1]) (by rw [h2, flip_length])
+      (fun h => flip_ne id i mask h3 hm (by rw [← h2]; exact h.2)) hauth
+
+/-- bit 255 of a 32-byte key is bit 7 of byte 31 -/
+example : ((128 : UInt8) ≠ 0) ∧ 31 < (List.replicate 32 (0 : UInt8)).length := by decide
+
 example : ¬ (([1, 2] : Bytes) = [1, 3] ∧ ([9] : Bytes) = [9]) := by decide
 
 /-! ## fresh ephemeral keys -/
